@@ -1119,3 +1119,17 @@ Example ex_reorder_rejects :
   reorder [[0; 0]] (mkSC [0; 0] [[0; 1]]) = (mkSC [0; 0] [[0; 1]], ValueError) /\
   reorder [[1]] (mkSC [0; 0] [[0; 1]]) = (mkSC [0; 0] [[0; 1]], IndexError).
 Proof. vm_compute. split; reflexivity. Qed.
+
+(* ---------- POSCAR with an element-name line ---------- *)
+(* without a name line the blocks are numbered in the supercell's own order: the plain reader is the named reader
+   with chemident = 0, 1, 2, ... *)
+Lemma poscar_read_named_default g content s :
+  poscar_read_named g (zrange (length content)) content s = poscar_read g content s.
+Proof. reflexivity. Qed.
+
+(* blocks in a permuted order and absent species left out: an instance *)
+Example ex_named_read :
+  poscar_read_named (guard_declared 3) [2; 0] [[3; 1]; [0]] (init_sc 4 3) = (mkSC [0; 2; -1; 2] [[0]; []; [3; 1]], OK) /\
+  poscar_read_named (guard_declared 3) [1; 0; 2] [[2]; [0]; [3; 1]] (mkSC [1; 1; -1; -1] [[]; [0; 1]; []])
+    = (mkSC [0; 2; 1; 2] [[0]; [2]; [3; 1]], OK).
+Proof. vm_compute. split; reflexivity. Qed.
